@@ -11,6 +11,7 @@ from common import CORPUS, NS_DAY, NS_HOUR, NS_MIN, NS_S, make_exact, run_model
 from framework import Finding, Run
 from gen_prod import (REPEATED, SKIPPED, ZoneCtx, gen_base, gen_producer, gen_tod, maybe_filter, pick_zone,
                       ref_instants)
+from prod_impl import _has_filtered_interval
 from tz import well_formed, zone_line
 
 
@@ -209,7 +210,7 @@ def make_case(pid: str, seed: int, tier: str) -> ProdCase:
         refs = [r for r in refs if True]
     elif pid == 'C13':
         for i in range(2):
-            base = gen_producer(rnd, zc, ref0, rnd.randint(1, 2), filters=0.2)
+            base = gen_producer(rnd, zc, ref0, rnd.randint(1, 2), filters=0.2, ops=('group',))
             k = rnd.choice(['offset', 'earliest', 'latest', 'jitter'])
             case.specs[i + 1] = gen_producer(rnd, zc, ref0, 2, ops=(k,), filters=0.0) if False else wrap_op(rnd, zc, k, base)
     elif pid == 'C14':
@@ -296,6 +297,15 @@ class ProdProp:
             if res.startswith('ok') and int(res.split()[1]) <= dt:
                 return f'get_next({dt}) returned {res.split()[1]} which is not strictly later (trigger {prod_sx(spec)[:120]})'
             return None
+        if self.pid == 'C16':
+            ok_err = {'err InfiniteLoopDetectedError', 'err LocationNotSetError', 'err HolidaysNotSetUpError'}
+            if res.startswith('ok') or res in ok_err:
+                return None
+            return (f'get_next({dt}) of {prod_sx(spec)[:160]} in zone {case.tz} ended with {res!r}: not an instant and not '
+                    f'InfiniteLoopDetectedError within the work budget')
+        if self.pid == 'C13':
+            from oracle_ops import check_op
+            return check_op(case, pid, dt, res)
         if self.pid in ('C05', 'C06'):
             if not well_formed(case.tz):
                 return None
@@ -306,6 +316,9 @@ class ProdProp:
         return None
 
     def known_signature(self, case: ProdCase, pid: int, dt: int, res: str, msg: str) -> str | None:
+        spec = case.specs[pid]
+        if self.pid == 'C16' and res in ('err DIVERGED', 'err ValueError', 'err OverflowError') and _has_filtered_interval(spec):
+            return 'F7a'
         return None
 
     def check_case(self, run: Run, case: ProdCase) -> None:
